@@ -327,7 +327,8 @@ class Program:
             known = (_reference_locals().get(rel) or {}).get("__all__")
             canonicalise(tree, set(known) if known is not None else None)
             inline_new_temps(tree, rel)
-            accumulate_to_comprehension(tree)
+            if accumulate_to_comprehension(tree):
+                inline_new_temps(tree, rel)       # a list that is now bound once may be a single-use temporary
             normalise_locals(tree, rel)
             name = rel[:-3].replace("/", ".")
             if name.endswith(".__init__"):
